@@ -7,7 +7,7 @@
    pool-wide low-priority queue served as in local_priority_queue_scheduler); the runtime_state constants and the "refusal returns" facts are
    regenerated from the source (Gen/GenRuntimeState.v). *)
 From Coq Require Import List NArith Bool Arith Permutation Lia.
-From Pika Require Import Base.Conc Gen.GenRuntimeState Model.SuspendResume Proofs.SuspendResumeProofs.
+From Pika Require Import Base.Conc Gen.GenRuntimeState Model.SuspendResume Proofs.SuspendResumeProofs Proofs.SuspendResumeValidated.
 Import ListNotations.
 
 (* a task is executed at most once, whatever suspend/resume calls are interleaved with its life *)
@@ -163,3 +163,52 @@ Print Assumptions C19_handshake_invariant.
 Example C19_example_stuck :
   forall t, t < 8 -> enabled ex_cfg t (fst (sr_run ex_cfg ex_progs (ex_sched 50))) (snd (sr_run ex_cfg ex_progs (ex_sched 50)) t) = false.
 Proof. intros t H. do 8 (destruct t as [|t]; [vm_compute; reflexivity|]). lia. Qed.
+
+(* ---- strict enqueue_vs_suspend ----
+   [validated g]: the normal-priority tasks whose submitter took the PU lock of the selected worker in select_active_pu with the
+   initial max_allowed_state (so `state <= suspended` was tested UNDER that lock) and kept it across the enqueue, as
+   local_priority_queue_scheduler::create_thread does.  [no_pool_suspend]: the programs contain no accepted pool-wide suspend
+   (suspend_internal CASes running -> pre_sleep WITHOUT the PU lock, which breaks the exclusion; refused ones are allowed).
+   At every reachable state such a task is not in the pending or staged queue of a worker that has decided to sleep, sleeps or is
+   waking up ([sleepy]): together with C19_no_task_lost it has been executed, is held by a worker about to execute it, or sits in
+   the queue of a worker that is awake and polls that queue (own queue entries are popped / converted whatever `running` is). *)
+Theorem C19_enqueue_validated_runs_before_sleep : forall c progs sched,
+  (forall t, Forall (api_ok c) (progs t)) -> (forall t, Forall no_pool_suspend (progs t)) ->
+  let cf := sr_run c progs sched in
+  forall w pc, snd cf w = LWorker pc -> sleepy pc = true ->
+  forall tk, In tk (validated (fst cf)) -> ~ In (w, tk) (qs (fst cf)) /\ ~ In (w, tk) (sq (fst cf)).
+Proof. exact enqueue_validated_runs_before_sleep. Qed.
+Print Assumptions C19_enqueue_validated_runs_before_sleep.
+
+(* ... hence never stranded: in ANY quiescent state -- whichever processing units are suspended, no resume needed (compare
+   C19_no_task_stranded, which needs every processing unit running again) -- every validated task has been executed *)
+Theorem C19_validated_never_stranded : forall c progs sched, nw c > 0 ->
+  (forall t, Forall (api_ok c) (progs t)) -> (forall t, Forall no_pool_suspend (progs t)) ->
+  let cf := sr_run c progs sched in
+  stuck c cf -> forall tk, In tk (validated (fst cf)) -> In tk (map fst (executed (fst cf))).
+Proof. exact validated_never_stranded. Qed.
+Print Assumptions C19_validated_never_stranded.
+
+(* non-vacuity: in the example run all three submissions are validated (the one hinted to the sleeping worker 1 is diverted to
+   worker 0 under the initial max_allowed_state) and the hypotheses hold *)
+Example C19_example_validated :
+  validated (fst (sr_run ex_cfg ex_progs (ex_sched 50))) = [(2, 2); (2, 1); (2, 0)] /\
+  (forall t, Forall no_pool_suspend (ex_progs t)) /\ (forall t, Forall (api_ok ex_cfg) (ex_progs t)).
+Proof.
+  split; [vm_compute; reflexivity|]. split; intros t; do 4 (destruct t as [|t]; [cbn; repeat constructor|]); constructor.
+Qed.
+
+(* ... and [validated] is necessary: with the only worker suspended select_active_pu escalates max_allowed_state to `sleeping`,
+   the task lands on the sleeping worker (not validated) and the quiescent state has it still staged, until a resume *)
+Definition u_cfg := {| nw := 1; elastic := true; stealing := false |}.
+Definition u_progs (t : nat) : list api := match t with 1 => [ASuspendPU 0 false; ASubmit (Some 0)] | _ => [] end.
+Definition u_sched : list (nat * oracle) := flat_map (fun _ => [(1, (false, 0)); (0, (false, 0))]) (seq 0 40).
+Example C19_example_unvalidated :
+  let cf := sr_run u_cfg u_progs u_sched in
+  validated (fst cf) = [] /\ sq (fst cf) = [(0, (1, 0))] /\ st (fst cf) 0 = rs_sleeping /\ snd cf 0 = LWorker WWaiting /\
+  executed (fst cf) = [] /\ calls (fst cf) = [(1, KSuspendPU, false)] /\
+  (forall t, t < 3 -> enabled u_cfg t (fst cf) (snd cf t) = false).
+Proof.
+  cbv zeta. repeat split; try (vm_compute; reflexivity).
+  intros t H. do 3 (destruct t as [|t]; [vm_compute; reflexivity|]). lia.
+Qed.
